@@ -378,8 +378,9 @@ def build_frame(af, layout=None, cls=None):
     cols = af['cols']
     if layout is None:
         layout = [[1, 1]] * len(cols)
-    index = build_index(af.get('index'))
-    columns = build_index(af.get('columns'), )
+    # index_auto / columns_auto: labels are 0..n-1 and the container builds its own auto-integer (map-less) index
+    index = None if af.get('index_auto') else build_index(af.get('index'))
+    columns = None if af.get('columns_auto') else build_index(af.get('columns'), )
     if cls is sf.FrameGO and columns is not None:
         columns = sf.IndexGO(columns) if columns.depth == 1 else sf.IndexHierarchyGO(columns)
     name = dec(af['name']) if af.get('name') is not None else None
@@ -395,4 +396,4 @@ def build_series(a_s, cls=None):
     cls = cls or sf.Series
     arr = make_array(a_s['vals'], a_s['dt'])
     name = dec(a_s['name']) if a_s.get('name') is not None else None
-    return cls(arr, index=build_index(a_s.get('index')), name=name)
+    return cls(arr, index=None if a_s.get('index_auto') else build_index(a_s.get('index')), name=name)
